@@ -651,6 +651,126 @@ theorem gap_polled_within (s : Station) (hg : s.gap = .waiting 0) (hts : s.p.add
     have h2 : gapAdvance { s with gap := .doPoll s.p.address } = nextGap s s.p.address := rfl
     simp only [gapAfter, h1, h2]
 
+/-! ## 3. A polled station that reports to be a ready master becomes NS and gets the token -/
+
+/-- With the just-admitted station as successor the sweep is over: `next_gap_poll(a)` with NS = `a`
+yields `Waiting` (so neither `do_pass_token` at the next visit nor the post-claim scan polls beyond
+the new successor — the F1 overrun cases included: `a = TS-1`, `a = HSA-1`). -/
+theorem sweep_ends_at_new_successor (ts hsa a : Nat) (hts : ts < hsa) (hh : hsa ≤ 126) (ha : a < hsa)
+    (hne : a ≠ ts) : nextGapPoll ts a hsa a = .waiting := by
+  rw [next_gap_waiting_iff ts a hsa a (by omega) hh ha]
+  unfold InGap succAddr
+  intro h
+  generalize hs : (if a = hsa - 1 then 0 else a + 1) = x at h
+  have hx : (a = hsa - 1 ∧ x = 0) ∨ (a ≠ hsa - 1 ∧ x = a + 1) := by
+    split at hs
+    · left; omega
+    · right; omega
+  obtain ⟨_, h2, h3⟩ := h
+  split at h3
+  · omega
+  · split at h3 <;> omega
+
+/-- **`ready_master_becomes_ns`**: a status reply (status Ok) from the polled address reporting
+`MasterWithoutToken` ("ready to enter the ring") — or `MasterInRing`, which the code treats alike —
+makes that address the next station: `do_await_status_response` stores `set_next_station(addr)`,
+whose NS is `addr` whatever the LAS contained, and goes to `PassToken` with `do_gap = No`. -/
+theorem ready_master_becomes_ns (c : Ctx) (now : Int) (addr : Nat) (rx' : Bytes) (t : Telegram) (l ret : Bool)
+    (rest : List (Telegram × Bool)) (state : ResponseState)
+    (hst : c.s.st = .awaitStatus addr) (hne : addr ≠ c.s.p.address) (hg : c.s.gap = .doPoll addr)
+    (hrx : receiveTelegram c.rx = .done rx' ((t, l) :: rest) ret)
+    (hr : replyOf c.s.p.address addr t = some (state, .ok))
+    (hstate : state = .masterWithoutToken ∨ state = .masterInRing)
+    (ha : addr < 128) (hts : c.s.ring.ts = c.s.p.address) (hts' : c.s.p.address < 128) :
+    ∃ r, c.s.ring.setNextStation addr = some r ∧ r.ns = addr ∧ r.ts = c.s.ring.ts ∧ r.las = c.s.ring.las ∧
+      r.isActive addr = true ∧
+      doAwaitStatusResponse c now =
+        .ok { c with rx := rx', s := { (markRx c.s now) with ring := r, st := .passToken false .first } } := by
+  have hadm : Admits state .ok := ⟨rfl, hstate⟩
+  have hstep := await_status_reply c now addr rx' t l ret rest state .ok hst hne hg hrx hr
+  rw [if_pos hadm] at hstep
+  cases hsn : c.s.ring.setNextStation addr with
+  | none =>
+    exfalso
+    unfold TokenRing.setNextStation at hsn
+    rw [if_neg (by omega)] at hsn
+    cases hsn
+  | some r =>
+    have hns := TokenRing.setNextStation_ns c.s.ring r addr (by rw [hts]; exact hne) (by rw [hts]; exact hts') hsn
+    rw [hsn] at hstep
+    exact ⟨r, rfl, hns.1, hns.2.1, hns.2.2.1, hns.2.2.2, hstep⟩
+
+/-- … and the token then goes to it: in `PassToken` with `do_gap = No` the next poll after the
+synchronisation pause transmits the token telegram to NS (`pass_token_without_gap`), i.e. to the
+station just admitted. -/
+theorem ready_master_gets_token (c : Ctx) (now : Int) (att : Attempt) (addr : Nat)
+    (hst : c.s.st = .passToken false att) (htx : c.tx = none) (hw : SyncOver c.s now)
+    (hns : c.s.ring.ns = addr) (c' : Ctx) (h : doPassToken c now = .ok c') :
+    c'.tx = some (tokenBytes addr c.s.p.address) ∧ c'.s.gap = c.s.gap := by
+  rw [pass_token_without_gap c now att hst htx hw] at h
+  cases h
+  exact ⟨by simp only [hns], rfl⟩
+
+/-- Every other reply from the polled address — `Slave`, `MasterNotReady`, or a status other than
+Ok — leaves the ring view (hence NS) untouched; the token goes to the old NS. -/
+theorem other_reply_keeps_ns (c : Ctx) (now : Int) (addr : Nat) (rx' : Bytes) (t : Telegram) (l ret : Bool)
+    (rest : List (Telegram × Bool)) (state : ResponseState) (status : ResponseStatus)
+    (hst : c.s.st = .awaitStatus addr) (hne : addr ≠ c.s.p.address) (hg : c.s.gap = .doPoll addr)
+    (hrx : receiveTelegram c.rx = .done rx' ((t, l) :: rest) ret)
+    (hr : replyOf c.s.p.address addr t = some (state, status))
+    (hno : status ≠ .ok ∨ state = .slave ∨ state = .masterNotReady) :
+    doAwaitStatusResponse c now =
+      .ok { c with rx := rx', s := { (markRx c.s now) with st := .passToken false .first } } := by
+  have hna : ¬ Admits state status := by
+    unfold Admits
+    rcases hno with h | h | h
+    · exact fun hh => h hh.1
+    · subst h; simp
+    · subst h; simp
+  rw [await_status_reply c now addr rx' t l ret rest state status hst hne hg hrx hr, if_neg hna]
+
+/-- The same in the post-claim scan: the admitted station becomes NS, the scan goes on with the
+same cursor — and by `sweep_ends_at_new_successor` its next step ends the sweep. -/
+theorem ready_master_becomes_ns_claim (c : Ctx) (now : Int) (fuel addr : Nat) (rx' : Bytes) (t : Telegram) (l ret : Bool)
+    (rest : List (Telegram × Bool)) (state : ResponseState)
+    (hst : c.s.st = .claimToken (.scanAwait addr)) (hne : addr ≠ c.s.p.address) (hg : c.s.gap = .doPoll addr)
+    (hrx : receiveTelegram c.rx = .done rx' ((t, l) :: rest) ret)
+    (hr : replyOf c.s.p.address addr t = some (state, .ok))
+    (hstate : state = .masterWithoutToken ∨ state = .masterInRing)
+    (ha : addr < 128) (hts : c.s.ring.ts = c.s.p.address) (hts' : c.s.p.address < 128) :
+    ∃ r, c.s.ring.setNextStation addr = some r ∧ r.ns = addr ∧ r.ts = c.s.ring.ts ∧ r.las = c.s.ring.las ∧
+      r.isActive addr = true ∧
+      doClaimToken c now (fuel + 1) =
+        .ok { c with rx := rx', s := { (markRx c.s now) with ring := r, st := .claimToken .scan } } := by
+  have hadm : Admits state .ok := ⟨rfl, hstate⟩
+  have hstep := claim_await_reply c now fuel addr rx' t l ret rest state .ok hst hne hg hrx hr
+  rw [if_pos hadm] at hstep
+  cases hsn : c.s.ring.setNextStation addr with
+  | none =>
+    exfalso
+    unfold TokenRing.setNextStation at hsn
+    rw [if_neg (by omega)] at hsn
+    cases hsn
+  | some r =>
+    have hns := TokenRing.setNextStation_ns c.s.ring r addr (by rw [hts]; exact hne) (by rw [hts]; exact hts') hsn
+    rw [hsn] at hstep
+    exact ⟨r, rfl, hns.1, hns.2.1, hns.2.2.1, hns.2.2.2, hstep⟩
+
+/-- After an admitting reply in the post-claim scan, the next scan step (NS = cursor = `addr`) ends
+the sweep without a further request; the step after it moves to `PassToken` (`claim_scan_step`,
+case `Waiting`), from where `ready_master_gets_token` applies. -/
+theorem claim_scan_after_admission (c : Ctx) (now : Int) (fuel addr : Nat)
+    (hst : c.s.st = .claimToken .scan) (htx : c.tx = none) (hw : SyncOver c.s now)
+    (hg : c.s.gap = .doPoll addr) (hns : c.s.ring.ns = addr) (hne : addr ≠ c.s.p.address)
+    (hts : c.s.p.address < c.s.p.hsa) (hh : c.s.p.hsa ≤ 126) (ha : addr < c.s.p.hsa) :
+    doClaimToken c now (fuel + 1) = .ok { c with s := { (stamped c.s now) with gap := .waiting 0 } } := by
+  rw [claim_scan_step c now fuel hst htx hw, hg]
+  simp only
+  have : nextGap c.s addr = some (.waiting 0) := by
+    unfold nextGap
+    rw [hns, sweep_ends_at_new_successor c.s.p.address c.s.p.hsa addr hts hh ha hne]
+  rw [this]
+
 /-! ## Non-vacuity of the station-level theorems: a concrete station 7 (HSA 126, NS 20, PS 3) -/
 
 def demoP : Params :=
@@ -697,5 +817,16 @@ example : (List.range 14).map (gapAfter (demo (.passToken true .first) (.waiting
 example : InGap 7 20 126 19 := by decide
 example : gapAfter (demo (.passToken true .first) (.waiting 0) []).s 23 = some (.doPoll 19) := by decide
 example : gapAfter (demo (.passToken true .first) (.waiting 0) []).s 24 = some (.waiting 0) := by decide
+-- 3. station 9 answers "ready" (MasterWithoutToken): NS becomes 9, PassToken without GAP, token to 9
+example : obs (doAwaitStatusResponse (demo (.awaitStatus 9) (.doPoll 9) (statusResponseBytes 7 9 .masterWithoutToken)) 1000) =
+    some (.passToken false .first, .doPoll 9, none, 9) := by decide
+example : obs (doAwaitStatusResponse (demo (.awaitStatus 9) (.doPoll 9) (statusResponseBytes 7 9 .masterInRing)) 1000) =
+    some (.passToken false .first, .doPoll 9, none, 9) := by decide
+-- "not ready" / slave: NS stays 20
+example : obs (doAwaitStatusResponse (demo (.awaitStatus 9) (.doPoll 9) (statusResponseBytes 7 9 .masterNotReady)) 1000) =
+    some (.passToken false .first, .doPoll 9, none, 20) := by decide
+example : obs (doAwaitStatusResponse (demo (.awaitStatus 9) (.doPoll 9) (statusResponseBytes 7 9 .slave)) 1000) =
+    some (.passToken false .first, .doPoll 9, none, 20) := by decide
+example : replyOf 7 9 (.data (fdlStatusResponseHeader 7 9 .masterWithoutToken .ok) []) = some (.masterWithoutToken, .ok) := by decide
 
 end PV.C12
